@@ -17,7 +17,7 @@ def run(rep: Report, repo: Repo):
         'with the repository\'s lark), the polarity table of edge qualifiers, the shape/index conventions of the delay array in both '
         'annotation methods (sibling comparison), and the pin -> line lookups.')
     rep.trusted = ['lark LALR compilation of the grammar constant; Token is a str subclass']
-    rep.assumptions = ['NOT DECIDED: value-level landing for arbitrary files; escaped-name handling beyond the replace() calls present']
+    rep.assumptions = ['BOUNDED: value-level landing is decided on one stand-in delay file (C14.records) and two stand-in circuits (C14.landing); arbitrary files are not']
     mod = repo.mod('sdf')
     text, gnode = grammar.extract_grammar(mod)
     G = grammar.Grammar(text, 'sdf')
